@@ -2218,25 +2218,32 @@ class _GroupElem(ABC):
         coordinatesInImage = coordinates_n.dtype == int and testShape and nZ == 1
 
         if coordinatesInImage:
-            # here coordinates_n are pixels
+            # here coordinates_n are pixels, listed row by row from (x0, y0)
+            x0, y0 = coordinates_n[:, 0].min(), coordinates_n[:, 1].min()
 
+            # pixels within the bounds of the element, bounds included (a pixel may lie on an edge)
             xe = np.arange(
-                np.floor(coordElem[:, 0].min()),
-                np.ceil(coordElem[:, 0].max()),
+                max(np.ceil(coordElem[:, 0].min()), x0),
+                min(np.floor(coordElem[:, 0].max()), x0 + nX - 1) + 1,
                 dtype=int,
             )
             ye = np.arange(
-                np.floor(coordElem[:, 1].min()),
-                np.ceil(coordElem[:, 1].max()),
+                max(np.ceil(coordElem[:, 1].min()), y0),
+                min(np.floor(coordElem[:, 1].max()), y0 + nY - 1) + 1,
                 dtype=int,
             )
             Xe, Ye = np.meshgrid(xe, ye)
 
-            grid_elements_coordinates = np.concatenate(([Ye.ravel()], [Xe.ravel()]))
+            grid_elements_coordinates = np.concatenate(
+                ([Ye.ravel() - y0], [Xe.ravel() - x0])
+            )
             idx = np.ravel_multi_index(grid_elements_coordinates, (nY, nX))  # type: ignore
-            # if something goes wrong, check that the mesh is correctly positioned in the image
+            # a grid listed in another order is searched like any other set of points
+            coordinatesInImage = np.array_equal(
+                coordinates_n[idx, 0], Xe.ravel()
+            ) and np.array_equal(coordinates_n[idx, 1], Ye.ravel())
 
-        else:
+        if not coordinatesInImage:
             xn, yn, zn = coordinates_n.T
             xe, ye, ze = coordElem.T
             tol = 1e-12 * max(1.0, np.abs(coordElem).max())
